@@ -51,12 +51,12 @@ def run(ctx):
     prog = ctx.prog
     ctx.rule("C03.1", "every panic-capable site reachable from Message::from_octets is discharged (bounds by dominating comparisons on the same cursor, range-loop indices, justified unwraps)")
     ctx.rule("C03.2", "every loop of the decoder consumes input or counts down a u16 section count")
-    ctx.rule("C03.3", "the only recursion is the compression pointer, and it targets a strictly earlier 14-bit offset")
+    ctx.rule("C03.3", "compression pointers are followed only to a strictly earlier 14-bit offset (start register := that offset), whether by the loop or by a nested call; there is no other recursion")
     ctx.rule("C03.5", "every error carries the header ID except the one raised before two bytes were read")
     ctx.rule("C03.6", "strictness guards: label length <= 63, pointer >= 192, reserved types in between rejected, name <= 255, RDLENGTH must equal the bytes consumed")
     ctx.rule("C03.7", "reader layout = RFC 1035 / 2782 / 3596 table")
     ctx.decline("agreement with a reference decoder on all inputs")
-    ctx.decline("the stack-overflow clause: the sound structural depth bound (16384 nested pointers x frame) exceeds the 2 MiB worker stack; the tighter true bound needs an arithmetic argument these rules cannot make (DESIGN.md C03.4)")
+    ctx.rule("C03.4", "stack: no call cycle is reachable from Message::from_octets (so the stack depth is a constant of the program, not of the message) and no reachable function holds a large array local")
 
     fns = [f for f in P.reach_set(prog, [FROM_OCTETS]) if not f.derived]
     ctx.floor("C03.1", "functions reachable from Message::from_octets", len(fns), 24)
@@ -136,48 +136,99 @@ def run(ctx):
             callee = t.get("resolved") or t.get("callee")
             if callee in fkeys and reaches(callee, g.key):
                 rec.append((g, b, t, callee))
-    ctx.check({(g.key, tgt) for g, b, t, tgt in rec} == {(WIRE_DN, WIRE_DN)}, "C03.3", "recursion:only-pointer", "the only recursive call in the decoder is DomainName::deserialise -> itself",
+    recset = {(g.key, tgt) for g, b, t, tgt in rec}
+    ctx.check(recset <= {(WIRE_DN, WIRE_DN)}, "C03.3", "recursion:only-pointer", "the decoder has no recursive call" if not recset else "the only recursive call in the decoder is DomainName::deserialise -> itself",
               "recursive calls: %s" % sorted({(A.short(g.key), A.short(tgt)) for g, b, t, tgt in rec}))
+    # ---------------------------------------------------------------- C03.4
+    # One stack frame per compression pointer overflowed the 2 MiB worker stack in a dev-profile build
+    # (chain of ~8000 pointers in a 16 KiB message, defect D11): any recursion whose depth the message
+    # controls is reported.  With no cycle at all the depth is the longest path of the (finite) call graph.
+    for g, b, t, tgt in rec:
+        ctx.bad("C03.4", "decoder:input-bounded-recursion:%s" % A.short(tgt),
+                "%s calls %s recursively, once per %s: the stack depth is chosen by the sender (up to 2^13 nested pointers in one TCP message, one frame each)"
+                % (A.short(g.key), A.short(tgt), "compression pointer" if tgt == WIRE_DN else "nested item"), g.loc(b))
+    if not rec:
+        ctx.ok("C03.4", "decoder:no-recursion", "no call cycle among the %d functions reachable from Message::from_octets" % len(fns))
+    import re as _re
+    big = []
+    for g in fns:
+        for l, rec_ in (g.locals.items() if isinstance(g.locals, dict) else enumerate(g.locals)):
+            ty = rec_["ty"]
+            for m in _re.finditer(r"; (\d+)\]", ty):
+                if int(m.group(1)) >= 4096:
+                    big.append((A.short(g.key), l, ty))
+    ctx.check(not big, "C03.4", "decoder:no-large-array-locals", "no array local of 4096 or more elements in the decoder", "large array locals: %s" % big[:5])
+
     wd = prog.fn(WIRE_DN)
     wr = A.Resolver(wd)
     wc = A.Conds(wd, wr)
-    for g, b, t, tgt in rec:
-        if g.key != WIRE_DN:
-            continue
+    # at_offset re-positions a cursor over the same octets
+    ao = prog.fn(CB + "at_offset")
+    aor = A.Resolver(ao)
+    aggs = [aor.rvalue(st["rv"], (b, i)) for b, i, st in A.aggregates(ao, DES + "ConsumableBuffer")]
+    ctx.check(len(aggs) == 1 and A.path_str(dict(aggs[0][3])["octets"]) == "param1.octets" and A.peel(dict(aggs[0][3])["position"]) == ("param", 2),
+              "C03.3", "at_offset", "at_offset(p) = the same octets at position p", "at_offset builds %s" % [A.show(a) for a in aggs], ao.loc())
+    hops = [(b, t) for b, t in wd.calls() if (t.get("callee") or "") == CB + "at_offset"]
+    ctx.floor("C03.3", "compression-pointer hops in DomainName::deserialise", len(hops), 1)
+    ctx.check(len(A.who_calls(prog, CB + "at_offset")) == len(hops), "C03.3", "at_offset:callers", "cursors are re-positioned only when following a compression pointer",
+              "at_offset is also called from %s" % sorted({A.short(f.key) for f, b, t in A.who_calls(prog, CB + "at_offset")}))
+    start_names = [l for l, n in wd.names.items() if n == "start"]
+    ctx.check(len(start_names) == 1, "C03.3", "start-register", "one `start` register", "no unique `start` local in DomainName::deserialise", wd.loc())
+    start_l = start_names[0] if start_names else None
+    sdefs = wd.defs().get(start_l, []) if start_l is not None else []
+    first_mut = [bb for bb, tt in wd.calls() if any(A.op_place(a) is not None and wd.local_ty(A.op_place(a)["l"]).startswith("&mut dns_types::protocol::deserialise::ConsumableBuffer") for a in tt["args"])]
+    init = [d for d in sdefs if A.path_str(wr._def_expr(d, 0)) == "param2.position"]
+    ok_start = len(init) == 1 and all(wd.dominates(init[0][0], bb) for bb in first_mut)
+    rec_calls = {b for g, b, t, tgt in rec if g.key == WIRE_DN}
+    for n, (b, t) in enumerate(hops):
         e = wr.call_expr(t, b)
-        buf = A.peel(e[2][1])
-        ok = buf[0] == "call" and buf[1] == CB + "at_offset" and A.peel(buf[2][0]) == ("param", 2)
-        ptr = buf[2][1] if ok else None
-        start_names = [l for l, n in wd.names.items() if n == "start"]
-        ok_start = False
-        if ok and start_names:
-            sd = wd.single_def(start_names[0])
-            if sd and sd[2] == "assign":
-                sv = wr.rvalue(wd.blocks[sd[0]]["stmts"][sd[1]]["rv"], (sd[0], sd[1]))
-                first_mut = [bb for bb, tt in wd.calls() if any(A.op_place(a) is not None and wd.local_ty(A.op_place(a)["l"]).startswith("&mut dns_types::protocol::deserialise::ConsumableBuffer") for a in tt["args"])]
-                ok_start = A.path_str(sv) == "param2.position" and all(wd.dominates(sd[0], bb) and (sd[0] != bb) or sd[0] == bb and True for bb in first_mut) and sd[0] == 0 or \
-                    (A.path_str(sv) == "param2.position" and all(wd.dominates(sd[0], bb) for bb in first_mut))
+        ptr = e[2][1]
         def strictly_before(fc):
             if fc[0] != "cmp":
                 return False
             for op, x, y in ((fc[1], fc[2], fc[3]), (A.SWAP[fc[1]], fc[3], fc[2])):
-                if op == "Lt" and ptr is not None and P.lin(x) == P.lin(ptr) and A.peel(y)[0] in ("field", "local", "param", "call") and start_names \
-                        and A.strip_refs(y) == A.strip_refs(wr.local(start_names[0], (b, "term"))):
-                    return True
+                if op != "Lt" or not A.same_value(x, ptr):
+                    continue
+                py = A.peel(y)
+                if py[0] == "phi" and len(py) > 2 and py[2] == start_l:
+                    return True                     # a read of the (re-assigned) start register
+                if init and A.strip_refs(y) == A.strip_refs(wr._def_expr(init[0], 0)) and len(sdefs) == 1:
+                    return True                     # the start register is never re-assigned
             return False
         okg, _ = wc.guarded(b, strictly_before)
-        # 14-bit: ptr = from_be_bytes([size & 0x3F, lo])
-        pv = A.peel(ptr) if ptr is not None else ("?",)
-        inner = A.peel_until_call(ptr, "from_be_bytes") if ptr is not None else ("?",)
+        inner = A.peel_until_call(ptr, "from_be_bytes")
         ok14 = inner[0] == "call" and inner[1].endswith("u16>::from_be_bytes")
         if ok14:
             arr = A.peel(inner[2][0])
             hi = A.peel(arr[1][0]) if arr[0] == "array" and len(arr[1]) == 2 else ("?",)
             ok14 = hi[0] == "bin" and hi[1] == "BitAnd" and A.peel(hi[3])[2] == 0x3F
-        ctx.check(ok and ok_start and okg and ok14, "C03.3", "pointer:strictly-backward", "nested decode starts at a 14-bit offset < the start of the current name (read before any consumption)",
-                  "pointer recursion is not restricted to strictly earlier offsets (at_offset: %s, start captured first: %s, guard ptr < start: %s, 14-bit: %s)" % (ok, ok_start, okg, ok14), wd.loc(b))
-        after = [x for x in wd.reachable(t["target"]) if any(bb == x for _, bb2 in [(0, 0)] for bb in [x]) and any(x in body for _, body in wd.loops()) and x != b and wd.term(x)["k"] == "call" and (wd.term(x).get("callee") or "") == CB + "next_u8"]
-        ctx.check(not after, "C03.3", "pointer:ends-name", "a pointer ends the name (no further labels are read)", "decoding continues after a pointer", wd.loc(b))
+        # how the hop is taken: handed to a nested call (whose own start is the new position), or the loop goes on reading there
+        nested = [rb for rb in rec_calls if any(x[0] == "call" and x[1] == CB + "at_offset" and x[3] == (wd.key, b) for x in A.walk(wr.call_expr(wd.term(rb), rb)))]
+        if nested:
+            how = "nested call"
+            ok_upd = True
+            after = [x for x in wd.reachable(wd.term(nested[0])["target"]) if any(x in body for _, body in wd.loops()) and wd.term(x)["k"] == "call" and (wd.term(x).get("callee") or "") == CB + "next_u8"]
+            ctx.check(not after, "C03.3", "pointer:ends-name", "a pointer ends the name (no further labels are read)", "decoding continues after a pointer", wd.loc(b))
+        else:
+            how = "loop"
+            upd = [d for d in sdefs if d not in init and A.same_value(wr._def_expr(d, 0), ptr)]
+            ok_upd = bool(upd) and all((d[0] == b or wd.dominates(d[0], b)) for d in upd) and len(sdefs) == len(init) + len(upd)
+        ctx.check(ok_start and okg and ok14 and ok_upd, "C03.3", "pointer:strictly-backward#%d" % n,
+                  "%s hop to a 14-bit offset < start, start = the position before any consumption, then := the offset hopped to (so hops strictly descend: at most 2^14 of them)" % how,
+                  "pointer hops are not restricted to strictly earlier offsets (start captured first: %s, guard ptr < start: %s, 14-bit: %s, start := ptr on the hop: %s)" % (ok_start, okg, ok14, ok_upd), wd.loc(b))
+    if not rec_calls:
+        # once a pointer has been followed the caller's cursor is not read again: the `pointee` cursor is None until the first hop and Some ever after
+        cur = [l for l in wd.names if wd.local_ty(l).startswith("std::option::Option<dns_types::protocol::deserialise::ConsumableBuffer")]
+        okc = len(cur) == 1
+        if okc:
+            kinds = []
+            for d in wd.defs().get(cur[0], []):
+                v = A.peel(wr._def_expr(d, 0))
+                in_loop = any(d[0] in body for _, body in wd.loops())
+                kinds.append((v[2] if v[0] == "agg" else "?", in_loop))
+            okc = sorted(kinds) == sorted([("None", False)] + [("Some", True)] * len(hops))
+        ctx.check(okc, "C03.3", "pointer:cursor", "the pointed-to cursor is None before the loop and only ever set to Some(at_offset(..)) inside it",
+                  "the pointed-to cursor is assigned otherwise: %s" % (kinds if len(cur) == 1 else cur), wd.loc())
 
     # ---------------------------------------------------------------- C03.5
     ERR = DES + "Error"
